@@ -10,7 +10,7 @@
 #include "contracts/common.h"
 
 struct Elem { int64_t val; int64_t tok; };
-static var ELEM_rec[] = { NULL, (var)AllocStatic, (var)CELLO_MAGIC_NUM, CELLO_CACHE_HEADER
+static var ELEM_rec[] = { NULL, CELLO_ALLOC_HEADER CELLO_MAGIC_HEADER CELLO_CACHE_HEADER
   NULL, "__Name", "Elem", NULL, "__Size", (var)sizeof(struct Elem), NULL, NULL, NULL };
 #define ELEM ((var)((char*)ELEM_rec + sizeof(struct Header)))
 #define EV(p) (((struct Elem*)(p))->val)
@@ -23,12 +23,18 @@ static int cv_issued, cv_retired; static var cv_last_destructed; static int64_t 
 #define CV_NTOK 3
 static int cv_live[CV_NTOK] = {0, 1, 0};
 var header_init(var head, var type, int alloc) {
-  struct Header* self = head; self->type = type; self->alloc = (var)(intptr_t)alloc; self->magic = (var)CELLO_MAGIC_NUM;
+  struct Header* self = head; self->type = type;
+#if CELLO_ALLOC_CHECK == 1
+  self->alloc = (var)(intptr_t)alloc;
+#endif
+#if CELLO_MAGIC_CHECK == 1
+  self->magic = (var)CELLO_MAGIC_NUM;
+#endif
   return ((char*)self) + sizeof(struct Header);
 }
 struct Header* header(var self) { return HDR(self); }
 var type_of(var self) { return HDR(self)->type ? HDR(self)->type : Type; }
-static int cv_is_elem(var x) { return HDR(x)->type == ELEM && HDR(x)->magic == (var)CELLO_MAGIC_NUM; }
+static int cv_is_elem(var x) { return HDR(x)->type == ELEM && MAGIC_OK(x); }
 static int64_t cv_new_token(void) { cv_issued++; return 1; }
 var assign(var dst, var src) {
   __CPROVER_assert(cv_is_elem(dst), "[C19] the destination of an element assignment carries the element type in its header");
@@ -53,13 +59,19 @@ static var cv_last_destructed;
 /* header_init per its K1 contract (C19.header_init.k1) - the real Alloc.c is not linked because this file models the
  * dispatchers that live there (destruct, copy) */
 var header_init(var head, var type, int alloc) {
-  struct Header* self = head; self->type = type; self->alloc = (var)(intptr_t)alloc; self->magic = (var)CELLO_MAGIC_NUM;
+  struct Header* self = head; self->type = type;
+#if CELLO_ALLOC_CHECK == 1
+  self->alloc = (var)(intptr_t)alloc;
+#endif
+#if CELLO_MAGIC_CHECK == 1
+  self->magic = (var)CELLO_MAGIC_NUM;
+#endif
   return ((char*)self) + sizeof(struct Header);
 }
 struct Header* header(var self) { return HDR(self); }
 var type_of(var self) { return HDR(self)->type ? HDR(self)->type : Type; }
 
-static int cv_is_elem(var x) { return HDR(x)->type == ELEM && HDR(x)->magic == (var)CELLO_MAGIC_NUM; }
+static int cv_is_elem(var x) { return HDR(x)->type == ELEM && MAGIC_OK(x); }
 static int64_t cv_new_token(void) {
   int64_t t = cv_next_tok++;
   __CPROVER_assert(t < CV_NTOK, "harness: token pool large enough");
